@@ -846,7 +846,7 @@ ASSUMPTIONS = [
     "zones are fetched, not queried: behaviour of a zone object built from damaged but accepted data is outside the statement",
 ]
 
-TIERS = {"quick": {"budget": 240.0}, "thorough": {"budget": 4200.0}}
+TIERS = {"quick": {"budget": 240.0}, "thorough": {"budget": 5400.0}}
 
 
 def main(a, boot_info):
